@@ -14,6 +14,7 @@ package c15
 
 import (
 	"bytes"
+	"encoding/binary"
 	"fmt"
 	"os"
 	"path/filepath"
@@ -136,6 +137,42 @@ func (ce *cacheEnv) dropHeld(fno int) {
 	ce.held = keep
 }
 
+// reuseReader looks EVERY key of table t up through rd, a reader its caller has been holding
+// while other tables were opened (successfully or not), released, evicted: whatever those calls
+// did to objects shared between readers, a held reader keeps answering with its own bytes.
+func (ce *cacheEnv) reuseReader(t *cTable, rd table.Reader, after string) {
+	c := ce.c
+	if rd.FileName() != ce.name(t.fno) {
+		c.Fail("held-reader-disturbed-by-later-call", fmt.Sprintf("the held reader of table %d calls itself %s after %s", t.fno, rd.FileName(), after))
+		return
+	}
+	for _, en := range t.entries {
+		var v []byte
+		var err error
+		p, _ := guard(func() {
+			v, err = rd.Get(en.k)
+			v = append([]byte(nil), v...)
+		})
+		if p || err != nil || !bytes.Equal(v, en.v) {
+			what := "returns " + showVal(v)
+			if p {
+				what = "panics"
+			} else if err != nil {
+				what = "fails (" + classifyGetErr(err) + ")"
+			}
+			c.Fail("held-reader-disturbed-by-later-call", fmt.Sprintf("the reader of table %d answered Get(%d) = %s when it was handed out; after %s the same (still held, still cached) reader %s", t.fno, en.k, showVal(en.v), after, what))
+			return
+		}
+	}
+}
+
+func classifyGetErr(err error) string {
+	if err == table.ErrKeyNotExist {
+		return "key not exist"
+	}
+	return "corrupt"
+}
+
 // useReader looks two keys of table t up through rd (which must be open).
 func (ce *cacheEnv) useReader(t *cTable, rd table.Reader, r interface{ Intn(int) int }) {
 	c := ce.c
@@ -201,8 +238,42 @@ func (ce *cacheEnv) run(i int) {
 	}
 	ghost := nt + 1 // a table number with no file
 	ce.byName[ce.name(ghost)] = ghost
+	// a table number whose file is a torn / damaged copy of table 1: the open gets as far as
+	// newMMapStoreReader's initialize() and fails THERE (its error path, with whatever it cleans up)
+	torn := nt + 2
+	tornFam := ce.tables[1].fam
+	ce.byName[ce.name(torn)] = torn
+	{
+		good, err := os.ReadFile(filepath.Join(ce.dir, cacheFamilies[tornFam], ce.name(1)))
+		if err != nil || len(good) < footerLen {
+			c.Fail("harness-read-file", "cannot read table 1 back")
+			return
+		}
+		bad := append([]byte(nil), good...)
+		switch r.Intn(4) {
+		case 0: // footer cut (refused for every cut of 1..8 bytes: truncated_tail_refused)
+			bad = bad[:len(bad)-1-r.Intn(8)]
+			c.Branch("cache-torn-file-cut")
+		case 1: // magic number damaged
+			bad[len(bad)-1-r.Intn(8)] ^= 0x5a
+			c.Branch("cache-torn-file-magic")
+		case 2: // footer positions out of the file
+			putU32(bad, len(bad)-footerLen+4, uint32(len(bad)+1+r.Intn(100)))
+			c.Branch("cache-torn-file-footer")
+		default: // one entry fewer in the offsets block than keys (the last check of initialize)
+			fs := len(bad) - footerLen
+			p2 := int(binary.LittleEndian.Uint32(bad[fs+4 : fs+8]))
+			putU32(bad, fs, uint32(p2)) // posOfOffset = posOfKeys: an empty offsets block
+			c.Branch("cache-torn-file-offsets")
+		}
+		if err := os.WriteFile(filepath.Join(ce.dir, cacheFamilies[tornFam], ce.name(torn)), bad, 0o644); err != nil {
+			c.Fail("harness-write-file", "cannot write the torn file")
+			return
+		}
+	}
 	ce.state()
 	for n := 12 + r.Intn(30); n > 0; n-- {
+		after := ""
 		switch x := r.Intn(100); {
 		case x < 50: // GetReader
 			fno := 1 + r.Intn(nt)
@@ -212,6 +283,9 @@ func (ce *cacheEnv) run(i int) {
 				fno, canOpen = ghost, false
 				fam = r.Intn(2)
 				c.Branch("cache-get-missing-file")
+			} else if r.Intn(7) == 0 {
+				fno, canOpen, fam = torn, false, tornFam
+				c.Branch("cache-get-torn-file")
 			} else {
 				fam = ce.tables[fno].fam
 			}
@@ -238,6 +312,7 @@ func (ce *cacheEnv) run(i int) {
 			case err != nil || rd == nil:
 				c.Op(op, "err")
 				c.Branch("cache-get-err")
+				after = fmt.Sprintf("a failed open of table %d", fno)
 				if canOpen {
 					c.Fail("open-fails", fmt.Sprintf("GetReader cannot open table %d, a file written by the builder", fno))
 				}
@@ -254,6 +329,7 @@ func (ce *cacheEnv) run(i int) {
 				} else {
 					c.Op(op, fmt.Sprintf("miss r%d", id))
 					c.Branch("cache-get-miss")
+					after = fmt.Sprintf("table %d was opened", fno)
 				}
 				if t := ce.tables[fno]; t != nil {
 					ce.useReader(t, rd, r)
@@ -310,7 +386,21 @@ func (ce *cacheEnv) run(i int) {
 		}
 		ce.state()
 		// readers still held and still cached must keep answering
-		if r.Intn(3) == 0 {
+		if after != "" {
+			// an open (successful or failed) happened: EVERY reader handed out before, still held
+			// and still cached, is read in full again
+			cur := ce.cached()
+			seen := map[table.Reader]bool{}
+			for _, h := range ce.held {
+				if cur[h.fno] == h.rd && !seen[h.rd] && ce.tables[h.fno] != nil {
+					seen[h.rd] = true
+					ce.reuseReader(ce.tables[h.fno], h.rd, after)
+				}
+			}
+			if len(seen) >= 2 {
+				c.Branch("cache-two-held-readers-reread-after-open")
+			}
+		} else if r.Intn(3) == 0 {
 			cur := ce.cached()
 			for _, h := range ce.held {
 				if cur[h.fno] == h.rd {
